@@ -180,7 +180,7 @@ def big_instances(seed, count):
     return res
 
 
-def run_big(afs, workdir, bins, seed):
+def run_big(afs, workdir, bins, seed, queries=(("SE", "GR"), ("SE", "ST"), ("SE", "PR"), ("DC", "CO"), ("DS", "ST"), ("SE", "CO"))):
     rng = random.Random(seed)
     d = os.path.join(workdir, "clifiles")
     os.makedirs(d, exist_ok=True)
@@ -190,7 +190,7 @@ def run_big(afs, workdir, bins, seed):
         segs.append([{"ev": "af", "idx": idx, "n": a["n"], "args": list(range(1, a["n"] + 1)), "ids": [], "att": a["att"], "present": "file",
                       "tag": "big", "sems": [], "big": True}])
         for b, fmt in (("crustabri", "iccma"), ("crustabri", "apx"), ("iccma23", "iccma")):
-            for kind, sem in (("SE", "GR"), ("SE", "ST"), ("SE", "PR"), ("DC", "CO"), ("DS", "ST"), ("SE", "CO")):
+            for kind, sem in queries:
                 inv = {"bin": b, "file": "good", "fmt": fmt, "pclass": "valid", "kind": kind, "argc": "absent" if kind == "SE" else "valid",
                        "enc": "unset", "cert": True, "log": "off"}
                 argv = [bins[b]] + (["solve"] if b == "crustabri" else []) + ["-f", files[(fmt, "good")]]
